@@ -683,3 +683,12 @@ Proof. intros. split; apply (ex_system_local cf cmid0 smid0 acts). Qed.
 Lemma ex_system_non : forall cf cmid0 smid0 acts,
   ex_P_non (ex_sys_trace cf (ex_sys_init cmid0 smid0) acts).
 Proof. intros. apply (ex_system_local cf cmid0 smid0 acts). Qed.
+
+(* the judge without clause 2 accepts every behaviour of every configuration *)
+Theorem ex_system_lenient : forall cf cmid0 smid0 acts,
+  ex_judge_lenient (ex_sys_trace cf (ex_sys_init cmid0 smid0) acts) = 0.
+Proof.
+  intros cf cmid0 smid0 acts. unfold ex_sys_trace, ex_judge_lenient.
+  pose proof (ex_basic_run cf acts _ _ (ex_basic_init cmid0 smid0)) as H. cbn zeta in H.
+  destruct H as [m' [P _]]. eapply ex_path_judge. exact P.
+Qed.
